@@ -46,6 +46,26 @@
 (*                   `current` of a ValidatePair, so its link, difficulty  *)
 (*                   bits and timestamp are never checked, and its proof   *)
 (*                   of work only when the first batch has one header.     *)
+(*                                                                         *)
+(* Chain-parameter sets.  Testnet = FALSE: the regtest-like universe       *)
+(* (PoWNoRetargeting: every header must carry the limit bits; cfg.lt = NF, *)
+(* cfg.ln = 0).  Testnet = TRUE: a separate, small configuration space on  *)
+(* testnet-like rules (ReduceMinDifficulty, no retarget inside the         *)
+(* universe): the reference chain carries "hard" bits except for cfg.ln    *)
+(* consecutive LATE blocks from height cfg.lt on (more than                *)
+(* MinDiffReductionTime after their parent: they must carry the limit      *)
+(* bits), and the on-time block after them, at height cfg.lt + cfg.ln,     *)
+(* must return to the difficulty of the last ancestor that is not a        *)
+(* minimum-difficulty block (btcd findPrevTestNetDifficulty walks back     *)
+(* through Parent(); block_headers_validator.go lightHeaderCtx             *)
+(* .RelativeAncestorCtx :283 answers from the TARGET STORE for heights     *)
+(* below the file's first header and from the import source above).  That  *)
+(* block is always inside the file; kind "easybits" = it wrongly stays at  *)
+(* the limit bits (proof of work valid for them), so only the contextual   *)
+(* rule, evaluated over ancestors on both sides of the store/file          *)
+(* boundary, rejects it.  Whether a header is valid is decided by the      *)
+(* generator's ground truth (btcd over the complete ancestor slice), not   *)
+(* here; the model only says when the importer looks at the header.        *)
 (***************************************************************************)
 EXTENDS Integers, Sequences, FiniteSets, TLC, Json, ImportProps
 
@@ -57,6 +77,8 @@ CONSTANTS MaxStart,    \* file start heights 0..MaxStart
           MaxAnom,     \* how many deviations (kind, fy, fk, injected fault) at once
           MaxFaults,   \* injected store errors per import (2: the rollback fails too)
           WithCrash,   \* crash points at the store calls
+          Testnet,     \* FALSE: regtest-like universe; TRUE: the testnet-like one
+          MaxLate,     \* testnet-like: 1..MaxLate consecutive late blocks
           FixBatchIndex, FixFirstHeader
 
 VARIABLES cfg,
@@ -261,7 +283,7 @@ ValB ==
            \* a cancelled context makes Validate return nil after reading
            \* the first batch: nothing is validated
            cfg.cx = 1 \/
-           ~(/\ cfg.kind \in {"pow", "bits", "time", "link"}
+           ~(/\ cfg.kind \in {"pow", "bits", "time", "link", "easybits"}
              /\ \/ cfg.x > cfg.s
                 \/ (cfg.kind = "pow" /\ Min2(cfg.bs, cfg.n) = 1)
                 \/ (FixFirstHeader /\ cfg.s > 0 /\ ReadP(bfile, cfg.s - 1) # NF)),
@@ -455,7 +477,7 @@ FKinds == {"none", "magic", "magicF", "truncB", "truncF", "emptyB", "shortF", "s
 B2N(b) == IF b THEN 1 ELSE 0
 Anom(c) == B2N(c.kind # "none") + B2N(c.fy # NF) + B2N(c.fk # "none") + B2N(c.rsrc # "none")
 
-Init ==
+InitR ==
   /\ \E s \in 0..MaxStart, n \in 1..MaxLen, bs \in 1..MaxBatch, hB \in 0..MaxStoreH :
      \E hF \in {hB, hB - 1, hB - 2, hB - 3, hB + 1} \cap (0..MaxH) :
      \E kind \in Kinds, fk \in FKinds :
@@ -468,7 +490,7 @@ Init ==
        /\ s + n - 1 <= MaxH
        /\ cfg = [s |-> s, n |-> n, bs |-> bs, hB |-> hB, hF |-> hF,
                  x |-> x, kind |-> kind, fy |-> fy, fk |-> fk, ck |-> ck, cx |-> cx,
-                 rsrc |-> rsrc, rk |-> rk, rkind |-> rkind]
+                 rsrc |-> rsrc, rk |-> rk, rkind |-> rkind, lt |-> NF, ln |-> 0]
        /\ Anom(cfg) <= MaxAnom
        /\ (kind # "none" => fy = NF)      \* the whole filter file already differs from x on
        \* configurations that fail before the file's headers are looked at
@@ -488,6 +510,25 @@ Init ==
        /\ (rsrc # "none" => (hB = hF /\ rk > hB /\ ck = NF /\ cx = 0 /\ kind = "none" /\ fy = NF))
        \* faults are not multiplied with checkpoints / a cancelled context
        /\ nf = IF Anom(cfg) < MaxAnom /\ cx = 0 /\ ck = NF /\ rsrc = "none" THEN MaxFaults ELSE 0
+
+\* The testnet-like universe: start height >= 1, no gap, equal store heights,
+\* the on-time block after the late one(s) inside the file (first, second or a
+\* later position), valid ("none") or wrongly at the limit bits ("easybits");
+\* no other deviation, no fault.
+InitT ==
+  /\ \E s \in 1..MaxStart, n \in 1..MaxLen, bs \in 1..MaxBatch, hB \in 0..MaxStoreH :
+     \E ln \in 1..MaxLate, lt \in 1..MaxH, kind \in {"none", "easybits"} :
+       /\ s + n - 1 <= MaxH
+       /\ s <= hB + 1
+       /\ lt + ln >= s /\ lt + ln <= s + n - 1
+       /\ cfg = [s |-> s, n |-> n, bs |-> bs, hB |-> hB, hF |-> hB,
+                 x |-> IF kind = "none" THEN NF ELSE lt + ln, kind |-> kind, fy |-> NF,
+                 fk |-> "none", ck |-> NF, cx |-> 0,
+                 rsrc |-> "none", rk |-> NF, rkind |-> "none", lt |-> lt, ln |-> ln]
+       /\ nf = 0
+
+Init ==
+  /\ IF Testnet THEN InitT ELSE InitR
   /\ bfile = [p \in 1..(cfg.hB + 1) |-> p - 1]
   /\ ffile = [p \in 1..(cfg.hF + 1) |-> p - 1]
   /\ idx = {<<h, h>> : h \in 0..cfg.hB}
